@@ -4,22 +4,35 @@
 
   Props/C04c–f prove that the generator model writes `render j` / `renderStmts ss` / `renderFunc f` of an AST, and
   reason about the semantics of that AST (Spec/JsSemRef, Spec/JsStmt); that a JavaScript engine READS the text as that
-  AST was trusted.  Here:
+  AST was trusted (tied to otto by C04sem only), and C14 had "no JS grammar in Lean" as its gap.  Here (ES5 formatter):
 
-    jsparse_render_expr   jsParseExpr (print (render e)) = some e        for every `e` with `Img e`
+    jsparse_render_expr    jsParseExpr  (print (render e))            = some e               for `Img e`
+    jsparse_render_stmts   jsParseStmts (print (renderStmts ind ss))  = some (canonSs ss)    for `ImgSs ss`
+    jsparse_render_func(s) jsParseFile  (print (renderFunc ind f))    = some [canonF f]      for `ImgF f`
+    canon_exec             execStmts (canonSs ss) = execStmts ss       (the canonical form has the same meaning)
+    gen_stmts_parse        with C04d `walkCmds_renders`: the statements the generator model writes for a command list
+                           parse to `toCmds`' translation
+    gen_text_parses        with C04f (`file_renders` = `visitSoyFile_renders` with the prefix explicit): the WHOLE text of
+                           a generated file — the two comment lines, the declarations of the namespace's prefixes, the
+                           functions — parses, as a program, to exactly the functions `toFile` translates the file to
 
-  `Img` (explicit, below) is the set of `JsExpr` on which the concrete syntax next to the constructors of
-  Spec/JsSemRef is unambiguous and means, by the precedence rules of the grammar, the tree the constructor stands for:
-  identifiers are ASCII IdentifierNames that are not reserved words, strings are well-formed UTF-8, an operand
-  written without parentheses stands at a level of the grammar at which it is read back as that operand.
-  `toAst_img`: the translation `toAst` of Props/C04c lands in `Img` for every source expression whose names are such
-  identifiers — EXCEPT for the shapes listed at `Img`, on which the text is NOT read as the AST says (each with
-  its example; the semantics of Spec/JsSemRef is `unspec` on all of them, so no theorem of C04 is wrong there).
+  `Img` / `ImgS` / `ImgF` (explicit, below) are the ASTs on which the concrete syntax next to the constructors of
+  Spec/JsSemRef / Spec/JsStmt is unambiguous and means, by the precedence rules of the grammar, the tree the constructor
+  stands for: identifiers are ASCII IdentifierNames that are not reserved words (nor `opt_data` / `opt_ijData`), strings
+  are well-formed UTF-8, an operand written without parentheses stands at a level of the grammar at which it is read back
+  as that operand, the library calls around a printed value are directives of the generator's table.  The shapes `Img`
+  excludes are listed at its definition, each with what JavaScript reads instead (real soyjs writes them for ill-typed
+  Soy only: `{length(5)}` → `5.length`, a SyntaxError; `{length(not $x)}` → `!(x).length`; the semantics of Spec/JsSemRef
+  is `unspec` on all of them, so no theorem of C04 is wrong there).  `canonS`: three statements share their text with a
+  special form (`buf += 't';`, `var x = '';`, `var x = l.length;`) and are read as that form; the literal arguments of a
+  directive are read back at source position 0 (and `|truncate:n` with the `true` the generator writes).
 
-  The proof has three independent parts:  the tokens of the text are the tokens of the syntax tree `plain e`
-  (`lex_render`);  the parser reads the tokens of a well-levelled tree as that tree (Lemmas/JsParseExpr
-  `parseExpr_tk`, a property of the grammar alone) and `plain e` is well-levelled (`plain_wf`);  the reading of
-  `plain e` as a `JsExpr` is `e` (`read_plain`).
+  Each level (expression, statement, function / file) has three independent parts:  the tokens of the text are the
+  tokens of the syntax tree `plain…` (`lex_render`, `lexS`, `lexF`);  the parser reads the tokens of a well-formed tree as
+  that tree (Lemmas/JsParseExpr `parseExpr_tk`, Lemmas/JsParseStmt `parseStmts_tk` / `parseProgram_tk` — properties of
+  the grammar alone) and `plain…` is well-formed (`plain_wf`, `wfS_plain`, `wfF`);  the reading of `plain…` is the AST
+  (`read_plain`, `readS_plain`, `readF`).  Tie: driver op `jsparse` (Ops/JsParse) on REAL soyjs.Write output against
+  otto's parser and the model's translation (harness/c14parse.go, sub-check C14parse).
 -/
 import SoyVerif.Lemmas.JsParseExpr
 import SoyVerif.Lemmas.JsParseLex
